@@ -3,6 +3,7 @@
     MinimizePostGen, MinimizeCorrect, DfaEquivProofs, MinimizeHyps). *)
 From CG Require Import Base.Prelude Model.Dfa Model.Minimize Spec.DfaEquiv Spec.MinimizeSpec.
 From CG Require Import Proofs.HopcroftAbs Proofs.HopcroftSim Proofs.MinimizeImage.
+From CG Require Import Proofs.HopcroftOrder.
 From CG Require Proofs.DfaEquivProofs Proofs.HopcroftLoop Proofs.MinimizeCorrect Proofs.MinimizeHyps Proofs.MinimizeTotal.
 
 (** The faithful model of [do_minimize] (Hopcroft with the dead state 0, the [find_bounds]
@@ -81,6 +82,40 @@ Check C03_partition :
     /\ (forall x y, In x (universe d) -> In y (universe d) -> ~ sameb (abs h) x y ->
                     exists w, accepts_from d x w <> accepts_from d y w).
 Print Assumptions C03_partition.
+
+(** Independence of the hash-iteration orders.  [run_any] is the refinement loop in which every
+    choice the Rust code leaves to a hash table is free: which element of the work-list is popped
+    ([worklist.iter().next()]), in which order the per-input preimages are used
+    ([transitions_to_group.values()]) and in which order the overlapping groups are split
+    ([partitions.iter()]).  Any two complete runs from the initial partition end in the same
+    partition of the states, and the loop of the model is one of these runs; everything after
+    the loop depends on the partition only (representative = minimum of the group). *)
+Theorem C03_order_independent :
+  forall d A1 A2, wf d -> all_coreachable d ->
+    run_any (make_transitions_image d) (HopcroftLoop.A0 d) A1 ->
+    run_any (make_transitions_image d) (HopcroftLoop.A0 d) A2 ->
+    forall x y, In x (universe d) -> In y (universe d) -> (sameb A1 x y <-> sameb A2 x y).
+Proof. intros d A1 A2 W C. exact (any_order_unique d W C A1 A2). Qed.
+Check C03_order_independent :
+  forall d A1 A2, wf d -> all_coreachable d ->
+    run_any (make_transitions_image d) (HopcroftLoop.A0 d) A1 ->
+    run_any (make_transitions_image d) (HopcroftLoop.A0 d) A2 ->
+    forall x y, In x (universe d) -> In y (universe d) -> (sameb A1 x y <-> sameb A2 x y).
+Print Assumptions C03_order_independent.
+
+Theorem C03_model_is_a_run :
+  forall d fuel h, wf d ->
+    hopcroft_loop fuel (make_transitions_image d) (initial_partition d) = Ok h ->
+    run_any (make_transitions_image d) (HopcroftLoop.A0 d) (abs h).
+Proof.
+  intros d fuel h W H. rewrite <- (HopcroftLoop.abs_initial d W).
+  apply (model_run_any d fuel (initial_partition d) h (HopcroftLoop.initial_Good d W) H).
+Qed.
+Check C03_model_is_a_run :
+  forall d fuel h, wf d ->
+    hopcroft_loop fuel (make_transitions_image d) (initial_partition d) = Ok h ->
+    run_any (make_transitions_image d) (HopcroftLoop.A0 d) (abs h).
+Print Assumptions C03_model_is_a_run.
 
 (** The verified validator: sound and complete.  It is run (extracted) on Rust's own (raw,
     minimised) pairs on every check: that is the direct judgement of the implementation. *)
